@@ -200,8 +200,8 @@ def e2 (op : String) (parts : List String) (bits : Nat) (a b : String) : String 
   match parts with
   | ["shl", t, _] => v2 (shl bits x (castAmt t y))
   | ["shr", t, _] => v2 (shr bits x (castAmt t y))
-  | ["shlU", _] | ["shlU", "big", _] => v2 (shl bits x y)
-  | ["shrU", _] | ["shrU", "big", _] => v2 (shr bits x y)
+  | ["shlU", _] | ["shlU", "big", _] => toHex (shlUint bits x (limbs y)) ++ "|" ++ toHex (shl bits x y)
+  | ["shrU", _] | ["shrU", "big", _] => toHex (shrUint bits x (limbs y)) ++ "|" ++ toHex (shr bits x y)
   | ["bits", o, _] => binop bits o x y
   | [o, _] =>
     if ["add", "sub", "mul", "div", "rem", "and", "or", "xor"].contains o then binop bits o x y
